@@ -379,6 +379,42 @@ func checkJSONRelink(c *Ctx, parse *ssa.Function, seqT types.Type) {
 				}
 			}
 		}
+		// the same for what sits in the maps of the decoded record (qualifier values)
+		eachInstr(parse, func(i ssa.Instruction) {
+			mu, ok := i.(*ssa.MapUpdate)
+			if !ok || !domInstr(um.(ssa.Instruction), mu) {
+				return
+			}
+			isRecord := func(x *Term) bool {
+				return x.Op == "outparam" || strings.Contains(x.String(), decT0(tb, dec))
+			}
+			mt, v := tb.T(mu.Map), tb.T(mu.Value)
+			if !mt.contains(isRecord) || !v.contains(isRecord) {
+				return
+			}
+			if v.Op == "binop" || v.Op == "call" || v.Op == "conv" || v.Op == "slice" {
+				recomputed = append(recomputed, short(mt.String())+"[…] = "+short(v.String()))
+				if at == token.NoPos {
+					at = mu.Pos()
+				}
+			}
+		})
+		eachInstr(parse, func(i ssa.Instruction) {
+			cl, ok := i.(*ssa.Call)
+			if !ok || !domInstr(um.(ssa.Instruction), cl) || len(cl.Call.Args) != 2 {
+				return
+			}
+			if b, isB := cl.Call.Value.(*ssa.Builtin); !isB || b.Name() != "delete" {
+				return
+			}
+			mt := tb.T(cl.Call.Args[0])
+			if mt.contains(func(x *Term) bool { return x.Op == "outparam" || strings.Contains(x.String(), decT0(tb, dec)) }) {
+				recomputed = append(recomputed, "delete("+short(mt.String())+", …)")
+				if at == token.NoPos {
+					at = cl.Pos()
+				}
+			}
+		})
 		if len(recomputed) > 0 {
 			c.bad("RELINK", "Parse:decoded fields are left as decoded", at, "after decoding, Parse overwrites "+strings.Join(recomputed, "; ")+": a record whose stored value is not what that formula gives comes back changed")
 		}
@@ -508,8 +544,29 @@ func checkJSONRelink(c *Ctx, parse *ssa.Function, seqT types.Type) {
 	// unconditional, once per decoded feature
 	if st == holds {
 		entry := loopBodyEntry(af.Block())
-		if entry == nil {
+		if entry == nil && afFn != parse {
+			// re-added by a helper that handles one feature: the loop is where Parse calls the helper
+			st, why = unknown, "AddFeature is called in "+fname(afFn)+", outside any loop; how often Parse calls that is not followed"
+			var sites []*ssa.Call
+			eachInstr(parse, func(i ssa.Instruction) {
+				if cl, ok := i.(*ssa.Call); ok && cl.Call.StaticCallee() == afFn {
+					sites = append(sites, cl)
+				}
+			})
+			if len(sites) == 1 && pathCond(atb, afFn.Blocks[0], af.Block()).Op == "true" {
+				if e2 := loopBodyEntry(sites[0].Block()); e2 != nil {
+					if pc := pathCond(view.tb[parse], e2, sites[0].Block()); pc.Op == "true" {
+						st, why = holds, ""
+					} else {
+						st, why = unknown, "features are handed to "+fname(afFn)+" under "+short(pc.String())
+					}
+				}
+			}
+		} else if entry == nil {
 			st, why = broken, "AddFeature is not called in a loop over the decoded features: at most one feature is re-linked"
+		} else if hdr := enclosingLoopHeader(af.Block()); hdr != nil && !reachesAvoiding(entry, hdr, map[*ssa.BasicBlock]bool{af.Block(): true}) {
+			// no way round the call within one turn of the loop (an inner loop that runs first has to end before
+			// it; its exit condition is not a condition on the feature)
 		} else if pc := pathCond(atb, entry, af.Block()); pc.Op != "true" {
 			st, why = unknown, "features are re-added under "+short(pc.String())
 			nOpaque := 0
